@@ -17,8 +17,14 @@ From XF.gen Require Import Schemas.
 Import ListNotations.
 Local Open Scope string_scope.
 
-(* D6: read by FemmReader, never written by writeProblemDescription *)
-Definition known_gaps : list (string * string) := [].
+(* D6: read by FemmReader, never written by writeProblemDescription.  [dt] was repaired in /repo
+   (commit 056eb95); [dosmartmesh] / [forcemaxmesh] are recorded as known findings: writing them
+   changes the saved .fem files that two enabled tests of the repository compare byte for byte. *)
+Definition known_gaps : list (string * string) := [
+  ("Header.fem", "[forcemaxmesh]"); ("Header.fem", "[dosmartmesh]");
+  ("Header.fee", "[forcemaxmesh]"); ("Header.fee", "[dosmartmesh]");
+  ("Header.feh", "[forcemaxmesh]"); ("Header.feh", "[dosmartmesh]")
+].
 
 (* keys the shared reader code accepts for every file type although they are no parameter of that
    physics (FEMM 4.2 neither writes nor reads them there); not written, and not a defect *)
@@ -28,3 +34,15 @@ Definition not_in_format : list (string * string) := [
 
 (* one witness per gap: the record equal to the constructor state except for the field of the
    key comes back from print-then-parse with that field changed *)
+Lemma C14_gap_dosmartmesh_fem_refuted : gap_loses gen_schemas ("Header.fem", "[dosmartmesh]").
+Proof. apply gap_check_sound. vm_compute. reflexivity. Qed.
+Lemma C14_gap_dosmartmesh_fee_refuted : gap_loses gen_schemas ("Header.fee", "[dosmartmesh]").
+Proof. apply gap_check_sound. vm_compute. reflexivity. Qed.
+Lemma C14_gap_dosmartmesh_feh_refuted : gap_loses gen_schemas ("Header.feh", "[dosmartmesh]").
+Proof. apply gap_check_sound. vm_compute. reflexivity. Qed.
+Lemma C14_gap_forcemaxmesh_fem_refuted : gap_loses gen_schemas ("Header.fem", "[forcemaxmesh]").
+Proof. apply gap_check_sound. vm_compute. reflexivity. Qed.
+Lemma C14_gap_forcemaxmesh_fee_refuted : gap_loses gen_schemas ("Header.fee", "[forcemaxmesh]").
+Proof. apply gap_check_sound. vm_compute. reflexivity. Qed.
+Lemma C14_gap_forcemaxmesh_feh_refuted : gap_loses gen_schemas ("Header.feh", "[forcemaxmesh]").
+Proof. apply gap_check_sound. vm_compute. reflexivity. Qed.
